@@ -4,6 +4,7 @@
     [lam^k] — for every [lam > 0], every environment, every value of the constants, including the
     undefined ([Xnan]) cases. *)
 From Coq Require Import Reals List ZArith Lia Lra Bool.
+From Flocq Require Import Core.Raux.
 From Interval Require Import Eval.Prog Eval.Tree Real.Xreal Eval.Eval.
 From FeosVerif Require Import ProgSem.
 Import ListNotations.
@@ -379,6 +380,78 @@ Proof.
   - cbn in H. apply Z.eqb_eq in H. subst d. now apply Rh_some0_eq in HR.
 Qed.
 
+Definition has_deg (d : deg) : bool := match d with DNone => false | _ => true end.
+
+(** *** Values the code only inspects for their sign, zero-ness or definedness (e.g.
+    [result.re().is_nan()], comparisons with zero) may have any definite degree; two values the
+    code compares with each other must have the same degree (or one of them is a literal zero). *)
+Definition events_sign_ok (P : list term) (ncomp : nat) (cz : list bool) (ev : list nat) : bool :=
+  let ds := deg_eval P (d0_thermo ncomp cz) in
+  forallb (fun k => has_deg (nth k ds DNone)) ev.
+
+Definition cmp_deg_ok (a b : deg) : bool :=
+  match a, b with
+  | DSome x, DSome y => Z.eqb x y
+  | DAny, (DAny | DSome _) | DSome _, DAny => true
+  | _, _ => false
+  end.
+
+Definition events_cmp_ok (P : list term) (ncomp : nat) (cz : list bool) (ev : list (nat * nat)) : bool :=
+  let ds := deg_eval P (d0_thermo ncomp cz) in
+  forallb (fun ab => cmp_deg_ok (nth (fst ab) ds DNone) (nth (snd ab) ds DNone)) ev.
+
+Lemma Xcmp_scale c a b : (0 < c)%R -> Xcmp (Xreal (c * a)) (Xreal (c * b)) = Xcmp (Xreal a) (Xreal b).
+Proof. intros Hc. cbn. now rewrite Rcompare_mult_l. Qed.
+
+Lemma Rh_cmp lam (Hlam : (0 < lam)%R) a b x x' y y' : cmp_deg_ok a b = true ->
+  Rh lam a x x' -> Rh lam b y y' -> Xcmp x' y' = Xcmp x y.
+Proof.
+  destruct a as [| |ka], b as [| |kb]; cbn; try discriminate; intros E Hx Hy.
+  - destruct Hx as [-> _], Hy as [-> _]. reflexivity.
+  - destruct Hx as [-> [-> | ->]]; [reflexivity|].
+    destruct y as [|s]; subst y'; [reflexivity|].
+    replace 0%R with (powerRZ lam kb * 0)%R at 1 by ring. apply Xcmp_scale, powerRZ_lt, Hlam.
+  - destruct Hy as [-> [-> | ->]]; [now destruct x'; destruct x|].
+    destruct x as [|r]; subst x'; [reflexivity|].
+    replace 0%R with (powerRZ lam ka * 0)%R at 1 by ring. apply Xcmp_scale, powerRZ_lt, Hlam.
+  - apply Z.eqb_eq in E. subst kb.
+    destruct x as [|r]; subst x'; [reflexivity|].
+    destruct y as [|s]; subst y'; [reflexivity|].
+    apply Xcmp_scale, powerRZ_lt, Hlam.
+Qed.
+
+Theorem events_cmp_invariant P ncomp cz ev :
+  events_cmp_ok P ncomp cz ev = true ->
+  forall lam T V N consts a b, (0 < lam)%R -> length N = ncomp -> consts_ok cz consts -> In (a, b) ev ->
+  Xcmp (out_ext P (thermo_env T (lam * V) (map (Rmult lam) N) consts) a)
+       (out_ext P (thermo_env T (lam * V) (map (Rmult lam) N) consts) b) =
+  Xcmp (out_ext P (thermo_env T V N consts) a) (out_ext P (thermo_env T V N consts) b).
+Proof.
+  unfold events_cmp_ok. intros H lam T V N consts a b Hlam HN Hc Hk.
+  rewrite forallb_forall in H. specialize (H (a, b) Hk). cbn in H.
+  subst ncomp. rewrite <- (scale_thermo lam T V N cz consts).
+  pose proof (deg_sound_gen lam Hlam P _ _ _
+    (scale_env_rel lam _ _ (d0_thermo_length T V N cz consts Hc) (zeros_ok_thermo T V N cz consts Hc))) as HR.
+  unfold out_ext. eapply Rh_cmp; [exact Hlam|exact H|apply HR|apply HR].
+Qed.
+
+(** sign / zero-ness / definedness of a value of definite degree is scale invariant *)
+Theorem events_sign_invariant P ncomp cz ev :
+  events_sign_ok P ncomp cz ev = true ->
+  forall lam T V N consts k, (0 < lam)%R -> length N = ncomp -> consts_ok cz consts -> In k ev ->
+  Xcmp (out_ext P (thermo_env T (lam * V) (map (Rmult lam) N) consts) k) (Xreal 0) =
+  Xcmp (out_ext P (thermo_env T V N consts) k) (Xreal 0).
+Proof.
+  unfold events_sign_ok. intros H lam T V N consts k Hlam HN Hc Hk.
+  rewrite forallb_forall in H. specialize (H k Hk).
+  subst ncomp. rewrite <- (scale_thermo lam T V N cz consts).
+  pose proof (deg_sound_gen lam Hlam P _ _ _
+    (scale_env_rel lam _ _ (d0_thermo_length T V N cz consts Hc) (zeros_ok_thermo T V N cz consts Hc)) k) as HR.
+  unfold out_ext.
+  eapply (Rh_cmp lam Hlam _ DAny); [|exact HR|split; [reflexivity|now right]].
+  now destruct (nth k (deg_eval P (d0_thermo (length N) cz)) DNone).
+Qed.
+
 (** zero flags of a dyadic constant table, and its compatibility *)
 Definition zero_flags (consts : list (Z * Z)) : list bool := map (fun me => Z.eqb (fst me) 0) consts.
 
@@ -390,7 +463,6 @@ Qed.
 
 (** diagnostics: position (from the start of the program) and term of the first instruction whose
     degree is [DNone] although all its operands have a degree — the place where homogeneity is lost *)
-Definition has_deg (d : deg) : bool := match d with DNone => false | _ => true end.
 Fixpoint first_none_aux (P : list term) (vals : list deg) (pos : nat) : option (nat * term) :=
   match P with
   | [] => None
